@@ -11,7 +11,7 @@ from .. import estimators as E, gen
 RULE = ('ENUMERATED: 17 estimators x applicable methods of {fit, transform, pair_distance, pair_score, score_pairs, '
         'predict, decision_function, score, calibrate_threshold} x {no preprocessor, array preprocessor} x the '
         'malformation grammar (ndim 0..4 off the documented one, tuple size 1..5 != expected, zero samples, zero '
-        'features, NaN/+inf/-inf (also inside a point whose label is unknown), str / object dtype, ragged nested list, feature count d+-1 / 1 / 2d, NaN reached through '
+        'features, NaN/+inf/-inf (also inside a point whose label is unknown), str / object dtype, ragged nested list, feature count d+-1 / 1 / 2d, NaN / +inf / -inf reached through '
         'the preprocessor, pair labels {0,2,-2,0.5,"a"}, label-length mismatch, n_components in {0,-1,d+1}) - every '
         'cell once; GENERATED: Hypothesis draws the cell plus the size of the otherwise well-formed input and the '
         'position of the bad entry; EQUIVALENCE: integral training/query data as list / int32 / int64 / Fortran / '
@@ -31,7 +31,7 @@ TUPLE_METHODS = ['predict', 'decision_function', 'score']
 FORM_MALF = ['scalar', 'ndim-1', 'ndim+1', 'ndim+2', 'zero-samples', 'zero-features', 'nan', 'inf', '-inf',
              'str', 'object', 'ragged', 'features-1', 'features+1', 'features=1', 'features=2d', 'tuple1', 'tuple2', 'tuple3', 'tuple4', 'tuple5']
 IDX_MALF = ['idx-tuple1', 'idx-tuple2', 'idx-tuple3', 'idx-tuple4', 'idx-tuple5', 'idx-zero-samples',
-            'idx-nan-row', 'idx-ndim+2']
+            'idx-nan-row', 'idx-inf-row', 'idx--inf-row', 'idx-ndim+2']
 Y_MALF = ['y-short', 'y-long', 'y-label-0', 'y-label-2', 'y-label--2', 'y-label-0.5', 'y-label-a']
 NC_MALF = ['n_components=0', 'n_components=-1', 'n_components=d+1']
 UNL_MALF = ['nan-in-unlabeled-point', 'inf-in-unlabeled-point']
@@ -112,7 +112,8 @@ def fitted(name, preproc):
     rs = np.random.RandomState(5)
     pool = np.vstack([data.X, rs.randn(3, data.d)])
     pool_nan = pool.copy()
-    pool_nan[-1, 1] = np.nan
+    # the array preprocessor holds ONE non-finite entry (its last row): NaN, or only +inf / only -inf
+    pool_nan[-1, 1] = {'inf': np.inf, '-inf': -np.inf}.get(preproc, np.nan)
     extra = {'preprocessor': pool_nan} if preproc else {}
     params = E.materialize(name, {}, data, 0, extra)
     est = E.build(name, params)
@@ -179,7 +180,7 @@ def malform(arr, malf, pos, kind, ts):
 def check_cell(case, stats):
   name, method, preproc, malf = case['est'], case['method'], case['preproc'], case['malf']
   n, pos = case.get('n', 4), case.get('pos', 0)
-  est, data, params, pool = fitted(name, preproc)
+  est, data, params, pool = fitted(name, {'idx-inf-row': 'inf', 'idx--inf-row': '-inf'}.get(malf, preproc))
   d = data.d
   kind, ts, needs_y = input_kind(name, method)
   rs = np.random.RandomState(1000 + pos)
@@ -233,7 +234,7 @@ def check_cell(case, stats):
       idx = rs.randint(0, npool - 1, size=(m, s))
     elif malf == 'idx-zero-samples':
       idx = idx[:0]
-    elif malf == 'idx-nan-row':
+    elif malf in ('idx-nan-row', 'idx-inf-row', 'idx--inf-row'):
       idx.flat[pos % idx.size] = npool - 1
     elif malf == 'idx-ndim+2':
       idx = idx[None, None]
